@@ -9,7 +9,7 @@ RULE = ("cases: seeded typed operator specs (every class at the root, nestings t
         "batch shapes incl. broadcasting, f32/f64) x observations {to_dense, matmul, @, rmatmul (X @ op), mT @, mT.to_dense, "
         "shape attributes} x rhs kinds; oracle: torch.matmul on the dense matrix built from the same raw tensors, plus "
         "denote(live constructor args). distinct key = (class path to depth 2, observation, rhs kind, dtype, batch rank); "
-        "non-trivial = n >= 2 and non-zero rhs")
+        "non-trivial = n >= 2 and non-zero rhs [zoo: block operators with the block dimension anywhere among the batch dimensions (block_dim down to -5); ConstantMul constants with broadcasting batch shapes; Root over non-triangular factors]")
 ASSUMPTIONS = ["torch.matmul / indexing on dense tensors is the specification", "lomon/model.py denotation table",
                "tolerances of lomon/compare.py (structural 1e-10 f64 / 2e-4 f32)"]
 REQUIRED_STATS = ("built",)
